@@ -94,5 +94,8 @@ def c18_pycode(w):
     w(f"def strReprProbes : List (List Char × List Char) := [" + ", ".join(f"({chars(x)}, {chars(repr(x))})" for x in sprobes) + "]")
     bprobes = [b"", b"a", b"a'b", b'a"b', b"a'b\"c", b"\\", b"\t\n\r", b"\x00\x1f\x7f\x80\xff"]
     w("def bytesReprProbes : List (List Nat × List Char) := [" + ", ".join(f"({nats(list(x))}, {chars(repr(x))})" for x in bprobes) + "]")
+    import keyword
+
+    w(f"def pyKeywords : List (List Char) := {strs(keyword.kwlist)}")
     w(f"def builtinNames : List (List Char) := {strs(sorted(dir(builtins)))}")
     w("")
